@@ -4,11 +4,14 @@
 mod common;
 mod run_bfv;
 mod run_bitvec;
+mod run_edge;
+mod run_ef;
 mod run_gf2;
 mod run_lender;
 mod run_ranksel;
 mod run_rcl;
 mod run_sigstore;
+mod run_space;
 
 use common::*;
 use std::path::PathBuf;
@@ -76,6 +79,12 @@ fn main() {
         ("rcl", Some(l)) => run_rcl::replay(&mut ctx, l),
         ("gf2", None) => run_gf2::run(&mut ctx),
         ("gf2", Some(l)) => run_gf2::replay(&mut ctx, l),
+        ("ef", None) => run_ef::run(&mut ctx),
+        ("ef", Some(l)) => run_ef::replay(&mut ctx, l),
+        ("edge", None) => run_edge::run(&mut ctx),
+        ("edge", Some(l)) => run_edge::replay(&mut ctx, l),
+        ("space", None) => run_space::run(&mut ctx),
+        ("space", Some(l)) => run_space::replay(&mut ctx, l),
         ("bfv", None) => run_bfv::run(&mut ctx),
         ("bfv", Some(l)) => run_bfv::replay(&mut ctx, l),
         (r, _) => {
